@@ -75,6 +75,35 @@ const (
 // matches function calls like "fn(arg1, arg2)" or just "fn"
 var filterRe = regexp.MustCompile(`^(\w+)(?:\((.*?)\))?$`)
 
+// matchCall matches "fn" or "fn(args)" like filterRe, but rejects text in which the parenthesis
+// opened after the name closes before the end, such as "f(a)+g(b)": that is an expression, not one call.
+func matchCall(s string) []string {
+	m := filterRe.FindStringSubmatch(s)
+	if m == nil {
+		return nil
+	}
+	depth := 0
+	var quote rune
+	for _, ch := range m[2] {
+		switch {
+		case quote != 0:
+			if ch == quote {
+				quote = 0
+			}
+		case ch == '"' || ch == '\'':
+			quote = ch
+		case ch == '(':
+			depth++
+		case ch == ')':
+			if depth == 0 {
+				return nil
+			}
+			depth--
+		}
+	}
+	return m
+}
+
 // parsePipeExpr parses "item | double | . > 5" into segments, auto-detecting expressions vs filters
 func parsePipeExpr(expr string) pipeExpr {
 	// Check if this is a complex expression (contains operators like ||, &&, etc.)
@@ -92,7 +121,7 @@ func parsePipeExpr(expr string) pipeExpr {
 
 	if !strings.Contains(expr, "|") {
 		// Check if it's a function call (including no-arg functions like "fn()")
-		if matches := filterRe.FindStringSubmatch(trimmed); matches != nil && matches[1] != "" {
+		if matches := matchCall(trimmed); matches != nil && matches[1] != "" {
 			return pipeExpr{
 				initial: "",
 				segments: []pipeSegment{{
@@ -134,7 +163,7 @@ func classifySegment(part string) pipeSegment {
 	}
 
 	// Try to match as function call
-	if matches := filterRe.FindStringSubmatch(part); matches != nil {
+	if matches := matchCall(part); matches != nil {
 		name := matches[1]
 		if helpers.IsIdentifier(name) {
 			args := []string{}
@@ -213,7 +242,7 @@ func (v *Vue) evalPipe(ctx VueContext, expr pipeExpr) (any, error) {
 	val, ok = ctx.stack.Resolve(expr.initial)
 	if !ok {
 		switch {
-		case helpers.IsFunctionCall(expr.initial) && filterRe.MatchString(expr.initial):
+		case helpers.IsFunctionCall(expr.initial) && matchCall(expr.initial) != nil:
 			// the head of the pipe is itself a function call: fn(a) | g
 			head, err := v.evalPipe(ctx, parsePipeExpr(expr.initial))
 			if err != nil {
